@@ -122,6 +122,27 @@ def gen_cases(rng, tier):
     for plat in PLATS:
         for fn in ("cpu_times", "virtual_memory", "swap_memory", "disk_io_counters", "net_io_counters"):
             cases.append({"kind": "sysfields", "cls": "sysfields", "plat": plat, "fn": fn})
+    # ---- front-end histories: [name() called / not called / failing], then a failing method, through <frontend>.Process
+    from props import _c20_probe as _P
+    for plat in PLATS:
+        if plat == "windows":
+            continue
+        names = list(_P.FE_NAMES[:4] if tier == "quick" else _P.FE_NAMES)
+        for _ in range(3 if tier == "quick" else 20):
+            n = rng.choice([14, 15, 15, 16, 20])
+            kn = "".join(rng.choice("abcdefgh-_k") for _ in range(n))
+            ext = rng.choice(["", "d", "-daemon", "/x"])
+            c0 = rng.choice(["/usr/sbin/", "", "rel/"]) + (kn + ext if rng.random() < 0.7 else "other-" + kn)
+            names.append((kn, c0))
+        for kn, c0 in names:
+            for mode in ("call", "skip", "fail"):
+                for meth, err, st in _P.FE_GRID:
+                    site = _P.FE_METHODS[meth].get(plat)
+                    if site is None:
+                        continue
+                    cases.append({"kind": "fename", "cls": "fename-%s-%s" % (plat, mode), "plat": plat, "kname": kn, "cmd0": c0,
+                                  "mode": mode, "femeth": meth, "meth": _P.FE_PLAT_METH.get(meth, meth),
+                                  "site": "" if meth == "wait" else site, "err": err or "ESRCH", "state": st})
     # ---- ladder: the whole space
     for plat in PLATS:
         errs = WIN_ERRS if plat == "windows" else POSIX_ERRS
@@ -309,6 +330,10 @@ def coq_term(case):
         return "run_olayout %s %s %s" % (COQ_PLAT[case["plat"]], _qs(case["meth"]), _qs(case["variant"]))
     if k == "sysfields":
         return "run_sysfields %s %s" % (COQ_PLAT[case["plat"]], _qs(case["fn"]))
+    if k == "fename":
+        return "run_fename %s %s %s %d %s %s %s %s" % (COQ_PLAT[case["plat"]], G.by(case["kname"]), G.by(case["cmd0"]),
+                                                       {"call": 0, "skip": 1, "fail": 2}[case["mode"]], _qs(case["meth"]),
+                                                       _qs(case["site"]), case["err"], COQ_STATE[case["state"]])
     if k == "probe":
         return "run_probe %s %s %s %s %s %s" % (COQ_PLAT[case["plat"]], _qs(case["meth"]), _qs(case["site"]), case["err1"],
                                                 case["err2"], G.z(case["pid"]))
@@ -343,9 +368,11 @@ def coq_struct(case, raw):
         return {"model": [raw[0], raw[1], raw[2]], "spec": None, "missing": [raw[3], raw[4]]} if isinstance(raw, list) else {"model": raw, "spec": None}
     if k == "ladder":
         return {"model": raw[0], "spec": raw[1], "contract": raw[2]}
+    if k == "fename":
+        return {"model": raw, "spec": None}
     if k == "probe":
         return {"model": raw[0], "spec": None, "allowed": raw[1]}
-    if k in ("layout", "dep", "nic", "pair", "retry", "wait", "sysfields", "olayout", "allfail", "probe"):
+    if k in ("layout", "dep", "nic", "pair", "retry", "wait", "sysfields", "olayout", "allfail", "probe", "fename"):
         return {"model": raw[0], "spec": raw[1]}
     raise ValueError(k)
 
@@ -410,6 +437,13 @@ def judge(case, coq, impl):
         return Verdict("corr", "native call %s not reached by %s.%s(pid=%d)" % (case["site"], case["plat"], case["meth"], case["pid"]))
     if k == "layout" and isinstance(coq["model"], list) and coq["model"][2] == T("OutOfModel"):
         return Verdict("skip", "answer not decodable into native slots")
+    if k == "fename":
+        ret, out = impl[0], impl[1]
+        if isinstance(out, dict) and out.get("t") in ("NoSuchProcess", "ZombieProcess", "AccessDenied", "TimeoutExpired"):
+            if out["a"][0] != 7 or out["a"][1] != ret:
+                return Verdict("violation", "%s raised by %s() after name() returned %r carries pid/name %r"
+                               % (out["t"], case["femeth"], ret, out["a"]))
+        return Verdict("ok") if impl == coq["model"] else Verdict("corr", "impl != model")
     if k == "probe":
         if isinstance(impl, dict) and impl.get("t") == "NotFired":
             return Verdict("corr", "native call %s not reached" % case["site"])
@@ -465,7 +499,7 @@ def judge(case, coq, impl):
 
 
 def nontrivial(case, coq, impl):
-    return case["kind"] in ("ladder", "layout", "nic", "dep", "pair", "retry", "wait", "sysfields", "olayout", "allfail", "probe")
+    return case["kind"] in ("ladder", "layout", "nic", "dep", "pair", "retry", "wait", "sysfields", "olayout", "allfail", "probe", "fename")
 
 
 # ------------------------------------------------------------------ implementation side (worker)
@@ -542,6 +576,10 @@ def impl_run(case, coq, env):
         if not callable(getattr(pkg, case["fn"], None)):
             return T("NoSuchFunction")
         return [B(f) for f in cls._fields]
+    if k == "fename":
+        fe = _fe(case["plat"], env)
+        return P.fe_history(fe, case["kname"], case["cmd0"], case["mode"], case["femeth"], case["site"] or None,
+                            None if case["femeth"] == "wait" else case["err"], case["state"])
     if k == "probe":
         L = _layer(case["plat"], env)
         if case["meth"] not in P.methods_of(L):
